@@ -157,6 +157,117 @@ def growth_jobs(ctx: Ctx, rng):
     return jobs
 
 
+REPO_QUICK_FILES = ("tests/test_wrappers.py", "tests/test_datastructures.py", "tests/test_send_file.py", "tests/test_exceptions.py",
+                    "tests/test_utils.py", "tests/test_test.py")
+
+
+def _rfin_line(rec, skipped):
+    """a finalisation recorded by harness/pytest_response_plugin.py -> an `rfin` trace line, or None (+ reason).
+    Only restrictions of the claimed domain are decided here (always towards "no claim"); the clauses are TLC's."""
+    import re
+
+    def skip(reason):
+        skipped[reason] = skipped.get(reason, 0) + 1
+
+    if rec["exc"]:
+        return skip("finalisation raised %s in the test (not judged)" % rec["exc"])
+    status_in = R.txt(rec["status_in"])
+    m = re.match(r"^(\d{3}) ", status_in + " ")
+    if not m:
+        return skip("status line outside 'code reason'")
+    code = int(m.group(1))
+    supp = rec["method"] == "HEAD" or 100 <= code < 200 or code in (204, 304)
+    out_cl = [e for e in rec["headers"] if R.txt(e["n"]).lower() == "content-length"]
+    computed = (rec["cl_before"] == 0 and bool(out_cl)) or rec["set_data_cl"]
+    if rec["set_data_stale"]:
+        skip("note: Content-Length of an earlier set_data body (open finding F101 class): no length claim")
+        computed = False
+    items = rec["items"]
+    fully = rec["observed"] and rec["exhausted"]
+    if supp:
+        claim = computed and items is not None
+    else:
+        claim = computed and fully
+        if items is None and fully:
+            items = [{"k": "b", "v": c} for c in rec["pulled"]]
+    if out_cl and not claim:
+        skip("note: Content-Length present but set by the application / body not fully observed: no length claim")
+    if not rec["observed"]:
+        skip("note: direct passthrough iterable returned as is: body and close not observed")
+    once = rec["observed"] and rec["closes"] == 1
+    if rec["observed"] and not once:
+        skip("note: iterable closed %s by the test: close clause not applied" % ("never" if rec["closes"] == 0 else "more than once"))
+    cb = rec["cb"] if once else []
+    body = [b for c in rec["pulled"] for b in c]
+    inp = {"shape": "tuple" if rec["shape"] == "tuple" else "list", "items": items or [], "pt": rec["pt"],
+           "st": {"kind": "str", "code": 0, "text": rec["status_in"]}, "method": rec["method"], "cl": {"has": not claim, "val": []},
+           "loc": {"has": False, "val": []}, "ac": rec["ac"], "pre": "none", "ncb": len(cb), "plan": len(rec["pulled"]), "ex": [],
+           "hdrs": rec["hdrs"], "mhdrs": rec["hdrs"], "envstd": False}
+    out = {"exc": "", "status": rec["status"], "headers": rec["headers"], "body": body, "allbytes": rec["allbytes"], "cb": cb,
+           "ic": -1, "raw": not rec["observed"]}
+    return {"op": "rfin", "inp": inp, "out": out, "test": rec["test"]}
+
+
+def repo_test_traces(ctx: Ctx, files, min_fin, min_hdr):
+    """code -> spec from the repository's own tests (harness/pytest_response_plugin.py): every finalisation and
+    every outermost Headers mutator call the tests perform is judged by ResponseTrace (verdict clauses only)."""
+    import json
+    import os
+    import subprocess
+    import sys
+
+    from ..core import REPO, VERIF
+
+    out = os.path.join(ctx.tmp, "repo-response-records.json")
+    env = dict(os.environ, VERIF_TRACE_OUT=out, PYTHONPATH=VERIF + os.pathsep + os.path.join(REPO, "src"), PYTHONDONTWRITEBYTECODE="1")
+    t0 = ctx.elapsed()
+    p = subprocess.run([sys.executable, "-m", "pytest", "-q", "-p", "no:cacheprovider", "-p", "harness.pytest_response_plugin",
+                        "--no-header", "-n", "0", *files], cwd=REPO, env=env, capture_output=True, text=True, timeout=1500)
+    tail = (p.stdout + p.stderr)[-1500:]
+    if not os.path.exists(out):
+        raise tlc.MachineryError("recording the repository's tests produced no trace file:\n" + tail)
+    data = json.load(open(out))
+    skipped = dict(data["skipped"])
+    lines, tests = [], []
+    nfin = 0
+    for rec in data["fin"]:
+        ln = _rfin_line(rec, skipped)
+        if ln is not None:
+            tests.append(ln.pop("test"))
+            lines.append(ln)
+            nfin += 1
+    for rec in data["hdr"]:
+        rec = dict(rec)
+        tests.append(rec.pop("test"))
+        rec.pop("count", None)
+        lines.append(rec)
+    for t, ln in enumerate(lines):
+        ln["t"], ln["i"] = t, 0
+    note = {"files": list(files), "finalisations_recorded": len(data["fin"]), "finalisations_judged": nfin,
+            "header_calls_recorded": sum(r.get("count", 1) for r in data["hdr"]), "distinct_header_calls_judged": len(data["hdr"]),
+            "skipped_or_restricted_by_reason": skipped, "pytest_exit": p.returncode, "wall_record_s": round(ctx.elapsed() - t0, 1)}
+    ctx.notes["repo_tests"] = note
+    if nfin < min_fin or len(data["hdr"]) < min_hdr:
+        raise tlc.MachineryError(f"too few records from the repository's tests: {nfin} finalisations, {len(data['hdr'])} header calls\n{tail}")
+    ndrift = len(ctx.model_drift)
+    rejects = ctx.judge(AREA, "ResponseTrace", lines, batch=2500)
+    note["model_drift_records"] = len(ctx.model_drift) - ndrift
+    ctx.count(len(lines))
+    seen = {}
+    for r in rejects:
+        ln = lines[r["t"]]
+        test = tests[r["t"]]
+        key = "RepoTests.%s:%s" % (r["clause"], test.split("::")[0] or "?")
+        seen[key] = seen.get(key, 0) + 1
+        ctx.violation(key, "RepoTests." + r["clause"], {"test": test, "line": ln}, kind="repo-tests")
+    note["rejected_keys"] = seen
+    if p.returncode != 0 and not rejects:
+        raise tlc.MachineryError("the repository's tests do not pass under the recording plugin:\n" + tail)
+    ctx.nontrivial.update(("repo", tests[t]) for t in range(len(lines)))
+    for t in range(0, len(lines), max(1, len(lines) // 3)):
+        ctx.sample({"repo_test": tests[t], "op": lines[t]["op"]})
+
+
 def run(ctx: Ctx):
     q = ctx.quick
     rng = random.Random(ctx.seed)
@@ -210,6 +321,7 @@ def run(ctx: Ctx):
         jobs.append(("fin", inp))
     jobs += growth_jobs(ctx, rng)
     lines = judge_jobs(ctx, jobs)
+    repo_test_traces(ctx, REPO_QUICK_FILES if q else ("tests",), 80 if q else 110, 400 if q else 550)
     for ln in lines[:: max(1, len(lines) // 5)]:
         if ln["op"] in ("shape", "exc"):
             continue
@@ -226,6 +338,14 @@ def run(ctx: Ctx):
 
 def replay(ctx: Ctx, data):
     case = data["case"]
+    if data.get("kind") == "repo-tests":
+        ln = dict(case["line"], t=0, i=0)
+        ctx.sample({"repo_test": case["test"]})
+        ctx.nontrivial.update({("replay", 0), ("replay", 1)})
+        ctx.count(1)
+        for r in ctx.judge(AREA, "ResponseTrace", [ln]):
+            ctx.violation("RepoTests.%s:%s" % (r["clause"], case["test"].split("::")[0]), "RepoTests." + r["clause"], case, kind="repo-tests")
+        return
     kind = data.get("kind") or ("fin" if "shape" in case else "hdr")
     if kind == "c05":
         kind = "fin" if "shape" in case else "hdr"
